@@ -22,6 +22,7 @@ import traceback
 
 HERE = os.path.dirname(os.path.abspath(__file__))
 VERIF = os.path.dirname(HERE)
+OUT = os.environ.get('VERIF_OUT', VERIF)     # evidence/ and replays/ go here (seeded-change runs use a scratch dir)
 sys.path.insert(0, HERE)
 sys.path.insert(0, os.environ.get('VERIF_REPO', '/repo'))   # default: /repo's working tree
 
@@ -156,7 +157,7 @@ def run_check(prop, tier, seed, keep=False):
                 by_class['%s|%s|%s' % (clause, ','.join(meta['naming']['classes']), fr['id'].split('-')[2])] += 1
     replay_paths = []
     if violations:
-        rdir = os.path.join(VERIF, 'replays', prop)
+        rdir = os.path.join(OUT, 'replays', prop)
         os.makedirs(rdir, exist_ok=True)
         byid = collections.OrderedDict()
         for tid, step, clause in violations:
@@ -218,8 +219,8 @@ def run_check(prop, tier, seed, keep=False):
         'wall_s': round(wall, 2),
         'violations': len(violations),
     }
-    os.makedirs(os.path.join(VERIF, 'evidence'), exist_ok=True)
-    with open(os.path.join(VERIF, 'evidence', prop + '.json'), 'w') as f:
+    os.makedirs(os.path.join(OUT, 'evidence'), exist_ok=True)
+    with open(os.path.join(OUT, 'evidence', prop + '.json'), 'w') as f:
         json.dump(ev, f, indent=1)
     if not keep and not violations:
         shutil.rmtree(work, ignore_errors=True)
